@@ -591,6 +591,79 @@ fn main() {
                 });
                 out
             }
+            // scram_rogue <script>: a real client (Connection::builder().sasl_profile(SCRAM-SHA-256)) against a
+            //   scripted server that does NOT know the password. script 0: mechanisms, init, outcome{ok, no
+            //   additional-data}; 1: mechanisms, init, outcome{ok, bogus signature}; 2: mechanisms, init, a
+            //   plausible challenge, response, outcome{ok, no additional-data}. Reports whether the client left
+            //   the SASL layer as if authenticated (it then sends the AMQP header).
+            #[cfg(feature = "scram")]
+            "scram_rogue" => {
+                use bytes::BytesMut;
+                use fe2o3_amqp::frames::sasl::{Frame as SFrame, FrameCodec};
+                use fe2o3_amqp_types::primitives::{Array, Binary, Symbol};
+                use fe2o3_amqp_types::sasl::{SaslChallenge, SaslCode, SaslMechanisms, SaslOutcome};
+                use tokio::io::{AsyncReadExt, AsyncWriteExt};
+                use tokio_util::codec::{Decoder, Encoder};
+                let script = nums[0];
+                let rt = tokio::runtime::Builder::new_current_thread().enable_time().build().unwrap();
+                let out = rt.block_on(async move {
+                    async fn write_frame(io: &mut tokio::io::DuplexStream, f: SFrame) {
+                        let mut body = BytesMut::new();
+                        FrameCodec {}.encode(f, &mut body).unwrap();
+                        let _ = io.write_u32(body.len() as u32 + 4).await;
+                        let _ = io.write_all(&body).await;
+                    }
+                    async fn read_frame(io: &mut tokio::io::DuplexStream) -> Option<SFrame> {
+                        let n = io.read_u32().await.ok()? as usize;
+                        let mut body = vec![0u8; n.checked_sub(4)?];
+                        io.read_exact(&mut body).await.ok()?;
+                        let mut src = BytesMut::from(&body[..]);
+                        FrameCodec {}.decode(&mut src).ok().flatten()
+                    }
+                    let (client_io, mut peer_io) = tokio::io::duplex(8192);
+                    let peer = tokio::spawn(async move {
+                        let mut hdr = [0u8; 8];
+                        if peer_io.read_exact(&mut hdr).await.is_err() {
+                            return false;
+                        }
+                        let _ = peer_io.write_all(b"AMQP\x03\x01\x00\x00").await;
+                        write_frame(&mut peer_io, SFrame::Mechanisms(SaslMechanisms { sasl_server_mechanisms: Array::from(vec![Symbol::from("SCRAM-SHA-256")]) })).await;
+                        let init = read_frame(&mut peer_io).await;
+                        if script == 2 {
+                            // server-first built from the client's nonce so that the client accepts it
+                            let client_first = match init {
+                                Some(SFrame::Init(i)) => i.initial_response.map(|b| b.to_vec()).unwrap_or_default(),
+                                _ => Vec::new(),
+                            };
+                            let text = String::from_utf8_lossy(&client_first).to_string();
+                            let nonce = text.split(',').find_map(|p| p.strip_prefix("r=")).unwrap_or("x").to_string();
+                            let server_first = format!("r={}ROGUE,s=QSXCR+Q6sek8bf92,i=4096", nonce);
+                            write_frame(&mut peer_io, SFrame::Challenge(SaslChallenge { challenge: Binary::from(server_first.into_bytes()) })).await;
+                            let _ = read_frame(&mut peer_io).await;
+                        }
+                        let data = if script == 1 { Some(Binary::from(b"v=AAAAAAAAAAAAAAAAAAAAAAAAAAAAAAAAAAAAAAAAAAA=".to_vec())) } else { None };
+                        write_frame(&mut peer_io, SFrame::Outcome(SaslOutcome { code: SaslCode::Ok, additional_data: data })).await;
+                        // an authenticated client now starts the AMQP layer
+                        let mut hdr2 = [0u8; 8];
+                        match tokio::time::timeout(std::time::Duration::from_millis(800), peer_io.read_exact(&mut hdr2)).await {
+                            Ok(Ok(_)) => &hdr2 == b"AMQP\x00\x01\x00\x00",
+                            _ => false,
+                        }
+                    });
+                    let client = tokio::time::timeout(std::time::Duration::from_millis(1500), async {
+                        fe2o3_amqp::Connection::builder()
+                            .container_id("client")
+                            .sasl_profile(fe2o3_amqp::sasl_profile::SaslScramSha256::new("user", "pencil"))
+                            .open_with_stream(client_io)
+                            .await
+                            .is_ok()
+                    })
+                    .await;
+                    let proceeded = peer.await.unwrap_or(false);
+                    format!("{{\"client_proceeded\":{},\"client_open_ok\":{}}}", proceeded, matches!(client, Ok(true)))
+                });
+                out
+            }
             // reader <dst_len> <l1> <l2> <l3>: one read of the chained-buffer reader over three chunks
             "reader" => {
                 use std::io::Read;
